@@ -144,19 +144,21 @@ def gen_spec(rnd):
     if r < 46:
         d = rnd.choice((1, 15, 28, 29, 30, 31, rnd.randrange(1, 32)))
         return {"txt": "%s%dd" % (pre, d), "f": ("field", "dom", d, sign), "inputs": ("d", "dt")}
+    # every accepted spelling of the unit: upper case, and the prime / double prime for minutes / seconds
+    spell = {"h": ("h", "h", "H"), "m": ("m", "m", "M", "'"), "s": ("s", "s", "S", '"')}
     if r < 54:
         h = rnd.randrange(0, 24)
-        return {"txt": "%s%dh" % (pre, h), "f": ("field", "hour", h, sign), "inputs": ("dt",)}
+        return {"txt": "%s%d%s" % (pre, h, rnd.choice(spell["h"])), "f": ("field", "hour", h, sign), "inputs": ("dt",)}
     if r < 62:
         m = rnd.randrange(0, 60)
-        return {"txt": "%s%dm" % (pre, m), "f": ("field", "min", m, sign), "inputs": ("dt",)}
+        return {"txt": "%s%d%s" % (pre, m, rnd.choice(spell["m"])), "f": ("field", "min", m, sign), "inputs": ("dt",)}
     if r < 68:
         s = rnd.randrange(0, 60)
-        return {"txt": "%s%ds" % (pre, s), "f": ("field", "sec", s, sign), "inputs": ("dt",)}
+        return {"txt": "%s%d%s" % (pre, s, rnd.choice(spell["s"])), "f": ("field", "sec", s, sign), "inputs": ("dt",)}
     if r < 86:
         unit = rnd.choice(("s", "m", "h"))
         N = rnd.choice({"s": (1, 2, 5, 10, 15, 20, 30), "m": (1, 2, 5, 10, 15, 20, 30), "h": (1, 2, 3, 4, 6, 8, 12)}[unit])
-        return {"txt": "/%s%d%s" % (pre, N, unit), "f": ("cocl", unit, N, sign), "inputs": ("dt", "t", "sx")}
+        return {"txt": "/%s%d%s" % (pre, N, rnd.choice(spell[unit])), "f": ("cocl", unit, N, sign), "inputs": ("dt", "t", "sx")}
     if r < 90:
         return {"txt": "/%s1d" % pre, "f": ("cocl", "d", 1, sign), "inputs": ("dt",)}
     unit = rnd.choice(("mo", "mo", "q", "y"))
@@ -236,10 +238,19 @@ def rounds(ctx, shard, nshards):
         # two targets in one invocation are two roundings, one after the other: each argument
         # keeps its own meaning (a co-class marker belongs to the argument that carries it)
         if ik == "dt" and not nextp and rnd.random() < 0.3:
-            spec2 = gen_spec(rnd)
-            if "dt" in spec2["inputs"]:
-                pargs = ["--", spec["txt"], spec2["txt"]]
-                ptag = "pair:%s:%s>%s:%s" % (spec["f"][0], spec["f"][1], spec2["f"][0], spec2["f"][1])
+            # mostly two, now and then more targets than the parser's first block of 16 slots holds
+            want = 1 if rnd.random() < 0.75 else rnd.randrange(16, 40)
+            chain = [spec]
+            for _ in range(want * 3):
+                s2 = gen_spec(rnd)
+                if "dt" in s2["inputs"]:
+                    chain.append(s2)
+                if len(chain) > want:
+                    break
+            if len(chain) > 1:
+                pargs = ["--"] + [c["txt"] for c in chain]
+                ptag = "pair:%s:%s>%s:%s" % (spec["f"][0], spec["f"][1], chain[1]["f"][0], chain[1]["f"][1]) \
+                    if len(chain) == 2 else "chain:%d" % (len(chain) // 8 * 8)
                 try:
                     pout, _ = run_lines(ctx.build, "dround", pargs, ins)
                 except BatchError as e:
@@ -249,13 +260,18 @@ def rounds(ctx, shard, nshards):
                 for (n, s_), i, o in zip(vals, ins, pout):
                     if i.endswith("24:00:00"):
                         continue
-                    e1 = expected(spec, False, n, s_)
-                    e2 = expected(spec2, False, e1[0], e1[1]) if e1 is not None else None
+                    e2 = (n, s_)
+                    for c in chain:
+                        e2 = expected(c, False, e2[0], e2[1])
+                        # long chains wander: stay clear of both ends of the supported years
+                        if e2 is None or not (R.NMIN + 800 <= e2[0] <= 910675 - 800):
+                            e2 = None
+                            break
                     if e2 is None:
                         continue
                     x = text(ik, e2[0], e2[1])
                     sub.evaluations += 1
-                    sub.nt((ptag, spec["txt"], spec2["txt"], i))
+                    sub.nt((ptag, pargs[1], pargs[-1], i))
                     if o != x:
                         V.add(ptag, {"args": pargs, "in": i, "exp": x, "kind": "round"}, expected=x, actual=o)
         args = IARGS.get(ik, []) + (["-n"] if nextp else []) + ["--", spec["txt"]]
